@@ -21,7 +21,8 @@ LEVEL_TEXT = ('All chains of length <= 2 with the full product of 66 spellings (
               'canonical rendering of the same chain under the same configuration and re-fed to the preprocessor. The bare-quarter '
               'clause is enumerated over all quarters x halves x 6 contexts (incl. a half that is itself glued to a preceding component) x clean_qq. Spelling bugs are local to one component and '
               'its neighbours (look-behind / look-ahead guards, regex order), so length 3 covers every neighbourhood.')
-LEVEL_NOTE = ('Trusted: the spelling table (taken from the statement and the comments of pytrs/parser/rgxlib/aliquots.py). The empty '
+LEVEL_NOTE = ('A second family takes the systematic product letter form (7-9 per component, three cases) x gap x fraction form (10) - 856 '
+              'spellings - each alone and next to every canonical component on either side. Trusted: the spelling table (taken from the statement and the comments of pytrs/parser/rgxlib/aliquots.py). The empty '
               'joiner is only combined with a left spelling that ends in a digit or fraction sign.')
 RULE = (
     "state = (chain, spelling index per component, joiner, configuration); transitions append a component / deviate a spelling or "
@@ -74,6 +75,8 @@ def units(tier):
         for b in COMPS:
             us.append({'L': 3, 'first': [a, b]})
     us.append({'L': 0, 'first': None})     # bare-quarter clause
+    for c in COMPS:
+        us.append({'L': 'x', 'comp': c})       # systematic spelling product of one component, alone and next to a canonical one
     return us
 
 
@@ -97,8 +100,40 @@ def spelling_choices(chain, tier):
     return out
 
 
+# ---- the systematic product of letter forms x gap x fraction forms (statement: 'the symbols, /2 and /4, bare 2 and 4, 1/2 and 1/4,
+# North Half, Northeast Quarter, North East One Quarter, with or without spaces'), in three letter cases.  One static rule: the bare
+# digit fractions ('/2', '2', '/4', '4') go with the one- / two-letter abbreviations only ('N/2', 'NE4' - not 'North/2').
+X_LETTERS = {
+    'N': ['N', 'n', 'North', 'north', 'NORTH', 'N.', 'No.'], 'S': ['S', 's', 'South', 'south', 'SOUTH', 'S.', 'So.'],
+    'E': ['E', 'e', 'East', 'east', 'EAST', 'E.'], 'W': ['W', 'w', 'West', 'west', 'WEST', 'W.'],
+    'NE': ['NE', 'ne', 'Northeast', 'northeast', 'NORTHEAST', 'North East', 'north east', 'N.E.', 'NorthEast'],
+    'NW': ['NW', 'nw', 'Northwest', 'North West', 'N.W.'], 'SE': ['SE', 'se', 'Southeast', 'South East', 'S.E.'],
+    'SW': ['SW', 'sw', 'Southwest', 'South West', 'S.W.'],
+}
+X_F2 = ['/2', '2', '½', '1/2', 'Half', 'half', 'HALF', 'One Half', 'One-Half', 'one half']
+X_F4 = ['/4', '4', '¼', '1/4', 'Quarter', 'quarter', 'QUARTER', 'One Quarter', 'One-Quarter', 'one quarter']
+X_JOIN = {'quick': [0, 1, 2, 6], 'thorough': list(range(len(JOIN)))}
+X_CFGS = {'quick': [None, 'clean_qq'], 'thorough': CFGS}
+
+
+def x_forms(c):
+    fr = X_F2 if c in ('N', 'S', 'E', 'W') else X_F4
+    out = []
+    for letters in X_LETTERS[c]:
+        for gap in ('', ' '):
+            for f in fr:
+                if f in ('/2', '2', '/4', '4') and letters.upper() != c:
+                    continue
+                out.append(letters + gap + f)
+    return out
+
+
 def judge(acc, chain, sp, ji, cfg, seen):
     parts = [SP[c][s] for c, s in zip(chain, sp)]
+    judge_parts(acc, chain, parts, list(sp), ji, cfg, seen)
+
+
+def judge_parts(acc, chain, parts, sp, ji, cfg, seen):
     j = JOIN[ji]
     if j == '':
         # glued components are only documented for spellings that end in a digit / fraction sign
@@ -110,7 +145,7 @@ def judge(acc, chain, sp, ji, cfg, seen):
         return
     seen.add(key)
     canon, b_pp, b_lots, b_qqs = base(chain, cfg)
-    case = {'chain': list(chain), 'sp': list(sp), 'join': ji, 'cfg': cfg, 'text': text}
+    case = {'chain': list(chain), 'sp': list(sp) if sp is not None else None, 'parts': parts, 'join': ji, 'cfg': cfg, 'text': text}
     try:
         t = _p.Tract(text, parse_qq=True, config=cfg)
         pp, lots, qqs = t.pp_desc, list(t.lots), list(t.qqs)
@@ -247,6 +282,19 @@ def run_unit(unit, tier):
             judge_bare(acc, text, clean, exp_pp, is_al, ctx)
         return acc.result()
     seen = set()
+    if unit['L'] == 'x':
+        c = unit['comp']
+        for form in x_forms(c):
+            for cfg in X_CFGS[tier]:
+                acc.transitions += 1
+                judge_parts(acc, (c,), [form], None, 0, cfg, seen)
+                for n in COMPS:
+                    for ji in X_JOIN[tier]:
+                        judge_parts(acc, (c, n), [form, CANON[n]], None, ji, cfg, seen)
+                        judge_parts(acc, (n, c), [CANON[n], form], None, ji, cfg, seen)
+                        acc.transitions += 2
+        acc.guard('x_product')
+        return acc.result()
     first = tuple(unit['first'] or ())
     for tail in itertools.product(COMPS, repeat=unit['L'] - len(first)):
         chain = first + tail
@@ -266,6 +314,8 @@ def replay(case):
         for text, clean, exp_pp, is_al, ctx in bare_cases():
             if text == case['text'] and clean == case['clean'] and ctx == case['ctx']:
                 judge_bare(acc, text, clean, exp_pp, is_al, ctx)
+    elif case.get('sp') is None and case.get('parts'):
+        judge_parts(acc, tuple(case['chain']), list(case['parts']), None, case['join'], case['cfg'], set())
     else:
         judge(acc, tuple(case['chain']), tuple(case['sp']), case['join'], case['cfg'], set())
     return acc.viol
@@ -274,7 +324,7 @@ def replay(case):
 def guards(info):
     g = info['guards']
     out = []
-    for name in ('normalised', 'bare_alone', 'bare_alone_clean', 'bare_after_half', 'bare_after_quarter', 'bare_prose_clean', 'bare_after_half_chain'):
+    for name in ('normalised', 'bare_alone', 'bare_alone_clean', 'bare_after_half', 'bare_after_quarter', 'bare_prose_clean', 'bare_after_half_chain', 'x_product'):
         if not g.get(name):
             out.append(f"never observed: {name}")
     return out
